@@ -192,6 +192,8 @@ theorem indexFiles_sinv (P : Result → Prop) (user : Bytes) (files : List FileI
       simp only at hf
       split at hf
       · cases hf
+      split at hf
+      · cases hf
       · simp only [Option.some.injEq] at hf
         have hres : ∀ r ∈ (Reader.addLabels {} (metaLabels u.id i user f.name)).all f.content,
             (uploadKey, u.id) ∈ r.labels := by
